@@ -136,7 +136,7 @@ pub fn run(ctx: &Ctx) {
                     }
                 }
             }
-            if n % 500 == 1 {
+            if n % 500 == 1 || ctx.want_sample() {
                 ctx.sample(json!({"client_ops": format!("{:?}", ops), "server": "fake", "requests_seen_by_server": reqs.len()}));
             }
         }
